@@ -246,6 +246,11 @@ def check_case(case, res, prior=None):
         if prior is not None:
             t.eeprom = bytearray(image(prior))
             await term.read_eeprom()
+            if 41 in term.eeprom:
+                # the first bring-up went all the way: the layout of the
+                # previous image has been derived on this object
+                term.parse_sync_managers(term.eeprom[41])
+                res.count("rereads_after_a_layout_was_derived_before")
             t.eeprom = bytearray(img)
             res.count("rereads_on_the_same_terminal_object")
         await term.read_eeprom()
